@@ -423,6 +423,83 @@ def judge_o_tangent(inp, obs, lr):
     return None
 
 
+# ---- G16: composite tangent vectors of mixed kinds ------------------------------------------------------------------
+def _orient(m):
+    """orientation of an isometry matrix: determinant of the representative that preserves the upper sheet"""
+    m = np.asarray(m, float)
+    sgn = np.where(m[..., 0, 0] < 0, -1.0, 1.0)
+    return np.linalg.det(m) * sgn ** m.shape[-1]
+
+
+def gen_o_comptv(rng, n):
+    for _ in range(n):
+        dim = rng.choice([2, 2, 3, 4, 5])
+        # stacks of every small size, including exactly dim+1 members (a square table) and rank-2 stacks
+        shape = rng.choice([[2], [3], [4], [6], [dim + 1], [dim + 1], [2, 2], [2, 3], [1, 3]])
+        cnt = int(np.prod(shape))
+        yield {"dim": dim, "shape": shape, "a": [rand_tv(rng, dim) for _ in range(cnt)], "b": [rand_tv(rng, dim) for _ in range(cnt)],
+               "t": [rng.uniform(-3, 3) for _ in range(cnt)], "fo": rng.random() < 0.7}
+
+
+def _stack_tv(ds, shape, dim):
+    X = np.stack([np.array(H.Point(np.array(d["k"]), model="klein").proj_data, dtype=float) * d["sc"] for d in ds]).reshape(tuple(shape) + (dim + 1,))
+    V = np.stack([np.array(d["v"], dtype=float) for d in ds]).reshape(tuple(shape) + (dim + 1,))
+    return H.TangentVector(H.Point(X.copy()), V.copy())
+
+
+def run_o_comptv(inp):
+    dim, shape, fo = inp["dim"], inp["shape"], inp["fo"]
+    cnt = int(np.prod(shape))
+    A, B = _stack_tv(inp["a"], shape, dim), _stack_tv(inp["b"], shape, dim)
+    Mo = np.array(_stack_tv(inp["a"], shape, dim).origin_to(force_oriented=fo).proj_data, dtype=float)
+    Mi = np.array(A.isometry_to(B, force_oriented=fo).proj_data, dtype=float)
+    tt = np.array(inp["t"]).reshape(tuple(shape))
+    Xa = np.array(_stack_tv(inp["a"], shape, dim).normalized().point_along(tt).proj_data, dtype=float)
+    out = {"shapes": [list(Mo.shape), list(Mi.shape), list(Xa.shape)], "members": []}
+    if list(Mo.shape) != shape + [dim + 1, dim + 1] or list(Mi.shape) != shape + [dim + 1, dim + 1] or list(Xa.shape) != shape + [dim + 1]:
+        return out
+    Mo, Mi, Xa = Mo.reshape(cnt, dim + 1, dim + 1), Mi.reshape(cnt, dim + 1, dim + 1), Xa.reshape(cnt, dim + 1)
+    Jm = G.J(dim)
+    for i in range(cnt):
+        sa, sb = mk_tv(inp["a"][i]), mk_tv(inp["b"][i])
+        pa, va = _tv_state(sa)
+        pb, vb = _tv_state(sb)
+        so = np.array(mk_tv(inp["a"][i]).origin_to(force_oriented=fo).proj_data, dtype=float)
+        si = np.array(mk_tv(inp["a"][i]).isometry_to(mk_tv(inp["b"][i]), force_oriented=fo).proj_data, dtype=float)
+        sx = np.array(mk_tv(inp["a"][i]).normalized().point_along(inp["t"][i]).proj_data, dtype=float)
+        sc = 1 + float(np.abs(so).max()) ** 2 + float(np.abs(si).max()) ** 2
+        out["members"].append({
+            "form": float(max(np.abs(Mo[i] @ Jm @ Mo[i].T - Jm).max(), np.abs(Mi[i] @ Jm @ Mi[i].T - Jm).max()) / sc),
+            "origin_rows": G.same_tangent(Mo[i][0], Mo[i][1], pa, va, 1e-6),
+            "carries": G.same_tangent(pa @ Mi[i], va @ Mi[i], pb, vb, 1e-6 * sc),
+            "orient": [float(_orient(Mo[i])), float(_orient(Mi[i]))], "orient_single": [float(_orient(so)), float(_orient(si))],
+            # in H^2 the orientation-preserving isometry with these images is unique
+            "same_as_single": [float(min(np.abs(Mo[i] - so).max(), np.abs(Mo[i] + so).max()) / sc),
+                               float(min(np.abs(Mi[i] - si).max(), np.abs(Mi[i] + si).max()) / sc)],
+            "along": G.proj_equal(Xa[i], sx, 1e-7)})
+    return out
+
+
+def judge_o_comptv(inp, obs, lr):
+    tags = {"dim": inp["dim"], "shape": inp["shape"], "fo": inp["fo"], "square_table": inp["shape"] == [inp["dim"] + 1]}
+    if "exc" in obs:
+        return {"expected": "isometries for every member", "observed": obs, "tags": dict(tags, exc=obs["exc"])}
+    if not obs["members"]:
+        return {"expected": {"one answer per member, shape": inp["shape"]}, "observed": obs["shapes"], "tags": dict(tags, what="shape")}
+    for i, m in enumerate(obs["members"]):
+        if not (m["form"] <= 1e-8 and m["origin_rows"] and m["carries"]):
+            return {"expected": "member i: isometry; origin_to rows = (basepoint, direction); isometry_to carries member i of a to member i of b",
+                    "observed": dict(m, i=i), "tags": dict(tags, what="targets")}
+        if not m["along"]:
+            return {"expected": "point_along with an array of distances: member i as for the single tangent vector", "observed": dict(m, i=i), "tags": dict(tags, what="point_along")}
+        if inp["fo"] and not (m["orient"][0] > 0 and m["orient"][1] > 0):
+            return {"expected": "force_oriented=True: every member orientation preserving", "observed": dict(m, i=i), "tags": dict(tags, what="orientation")}
+        if inp["fo"] and inp["dim"] == 2 and not max(m["same_as_single"]) <= 1e-7:
+            return {"expected": "H^2, orientation forced: member i equals the answer for the single tangent vector", "observed": dict(m, i=i),
+                    "tags": dict(tags, what="member = single")}
+    return None
+
+
 def gen_o_along(rng, n):
     for _ in range(n):
         dim = rng.choice([2, 3, 4, 5])
@@ -915,6 +992,10 @@ CLAUSES = [
            budget={"quick": 150, "thorough": 5000}, what="origin -> point for float points (composite shapes, scaled representatives), isometry, orientation"),
     Clause("tangent_oracle", "oracle", gen_o_tangent, run_o_tangent, judge_o_tangent, site="hyperbolic.TangentVector.isometry_to",
            budget={"quick": 150, "thorough": 5000}, what="base tangent -> positive multiple; isometry_to carries basepoint and direction"),
+    Clause("composite_tangent_oracle", "oracle", gen_o_comptv, run_o_comptv, judge_o_comptv, site="hyperbolic.TangentVector.origin_to",
+           budget={"quick": 80, "thorough": 3000},
+           what="stacks of tangent vectors of mixed kinds (both sheets, extreme scales; 2-6 members, exactly dim+1 members, rank-2 stacks): member i of "
+                "origin_to / isometry_to / point_along(array) hits its own targets, is orientation preserving when forced, and in H^2 equals the single answer"),
     Clause("along_oracle", "oracle", gen_o_along, run_o_along, judge_o_along, site="hyperbolic.TangentVector.point_along",
            budget={"quick": 200, "thorough": 8000}, what="|t| along a unit tangent (both signs), on the geodesic, law of cosines, towards q reaches q"),
     Clause("surface_polygon_oracle", "oracle", gen_o_surface, run_o_surface, judge_o_surface, site="hyperbolic.Polygon.regular_surface_polygon",
